@@ -872,6 +872,153 @@ fn random_cases(seed: u64, n: usize, out: &mut Vec<Case>) {
 }
 
 // ---------------------------------------------------------------------------------------------
+// stream-level sub-leg: several well-formed frames back to back in ONE reader
+// ---------------------------------------------------------------------------------------------
+
+const STREAM_FIRST_SIZES: [usize; 16] = [0, 1, 9, 8191, 8192, 32767, 32768, 32769, 40000, 49152, 65535, 65536, 65537, 100_000, 131_073, 300_001];
+/// max bytes the reader hands out per poll (0 = everything at once, a plain slice)
+const STREAM_CHUNKS: [usize; 5] = [0, 1, 7, 4096, 65_537];
+
+fn stream_frame(idx: usize, size: usize) -> (u8, i16, u8, Vec<u8>, Vec<u8>) {
+    let ops = [0x08u8, 0x00, 0x06, 0x0C, 0x02, 0x10];
+    let opcode = ops[idx % ops.len()];
+    let flags = [0u8, 0x02, 0x08, 0x0e][idx % 4];
+    let stream = [0i16, 1, -1, 32767, -32768][idx % 5].wrapping_add(idx as i16);
+    // position- and frame-dependent content: a read that starts or ends in the wrong place cannot match
+    let body: Vec<u8> = (0..size).map(|i| ((i as u32).wrapping_mul(2654435761).wrapping_add(idx as u32 * 97) >> 13) as u8).collect();
+    (flags, stream, opcode, body.clone(), frames::plain_frame(opcode, flags, stream, &body))
+}
+
+/// Decode `sizes.len()` concatenated frames by repeated `read_response_frame` calls on one reader.
+fn stream_case(sizes: &[usize], chunk: usize) -> Result<(), (String, String)> {
+    use scylla_cql::frame::read_response_frame;
+    let mut all = Vec::new();
+    let mut want = Vec::new();
+    for (i, &sz) in sizes.iter().enumerate() {
+        let (flags, stream, opcode, body, frame) = stream_frame(i, sz);
+        all.extend_from_slice(&frame);
+        want.push((flags, stream, opcode, body));
+    }
+    let mut slice_rd: &[u8] = &all;
+    let mut chunk_rd = decode::ChunkReader { data: &all, chunk: chunk.max(1), pending_next: false };
+    for (i, (flags, stream, opcode, body)) in want.iter().enumerate() {
+        let got = if chunk == 0 { decode::block_on(read_response_frame(&mut slice_rd)) } else { decode::block_on(read_response_frame(&mut chunk_rd)) };
+        let (params, op, b) = match got {
+            None => return Err(("stream:never-completes".into(), format!("frame {i}: the read future never completed"))),
+            Some(Err(e)) => return Err(("stream:error-on-well-formed-stream".into(), format!("frame {i} of {sizes:?}: {e}"))),
+            Some(Ok(x)) => x,
+        };
+        if params.version != 0x84 || params.flags != *flags || params.stream != *stream || op as u8 != *opcode {
+            return Err(("stream:frame-header-mismatch".into(), format!("frame {i} of {sizes:?}: header decoded as version {:#x} flags {:#x} stream {} opcode {:#x}, encoded {:#x} {} {:#x}", params.version, params.flags, params.stream, op as u8, flags, stream, opcode)));
+        }
+        if b.len() != body.len() {
+            return Err(("stream:frame-body-length".into(), format!("frame {i} of {sizes:?}: {} bytes announced and encoded, {} bytes returned", body.len(), b.len())));
+        }
+        if b[..] != body[..] {
+            let at = b.iter().zip(body.iter()).position(|(x, y)| x != y).unwrap_or(0);
+            return Err(("stream:frame-body-mismatch".into(), format!("frame {i} of {sizes:?}: body differs from what was encoded at offset {at}")));
+        }
+    }
+    let left = if chunk == 0 { slice_rd.len() } else { chunk_rd.data.len() };
+    if left != 0 {
+        return Err(("stream:reader-not-exhausted".into(), format!("{left} bytes left in the reader after the last frame of {sizes:?}")));
+    }
+    // one more read: clean EOF error, nothing else
+    let extra = if chunk == 0 { decode::block_on(read_response_frame(&mut slice_rd)) } else { decode::block_on(read_response_frame(&mut chunk_rd)) };
+    match extra {
+        Some(Err(_)) => Ok(()),
+        Some(Ok(_)) => Err(("stream:frame-from-nothing".into(), format!("a frame was returned after the end of {sizes:?}"))),
+        None => Err(("stream:never-completes".into(), "read at end of stream never completed".into())),
+    }
+}
+
+fn stream_cases(thorough: bool) -> Vec<(Vec<usize>, usize)> {
+    let mut seqs: Vec<Vec<usize>> = Vec::new();
+    let seconds: &[usize] = if thorough { &[0, 1, 9, 8192, 32768, 32769, 40000, 65537, 100_000] } else { &[0, 1, 9, 32769, 40000, 65537] };
+    for &a in &STREAM_FIRST_SIZES {
+        seqs.push(vec![a]);
+        for &b2 in seconds {
+            seqs.push(vec![a, b2]);
+            seqs.push(vec![b2, a, 9]);
+        }
+        seqs.push(vec![a, a, a]);
+    }
+    let mut out = Vec::new();
+    for s in seqs {
+        for &c in &STREAM_CHUNKS {
+            // one byte per poll over the largest streams only in thorough
+            if c == 1 && !thorough && s.iter().sum::<usize>() > 140_000 {
+                continue;
+            }
+            out.push((s.clone(), c));
+        }
+    }
+    out
+}
+
+/// child: cases on stdin as lines "chunk size size ...", one line of verdict per case on stdout
+fn stream_child() -> ! {
+    use std::io::Read;
+    vcore::sandbox::limit_address_space(2 << 30);
+    vcore::quiet_panics();
+    let mut input = String::new();
+    std::io::stdin().read_to_string(&mut input).expect("stdin");
+    for (idx, line) in input.lines().enumerate() {
+        let nums: Vec<usize> = line.split_whitespace().filter_map(|x| x.parse().ok()).collect();
+        if nums.is_empty() {
+            continue;
+        }
+        raw_write(&format!("I {idx}\n"));
+        match std::panic::catch_unwind(|| stream_case(&nums[1..], nums[0])) {
+            Ok(Ok(())) => raw_write(&format!("K {idx}\n")),
+            Ok(Err((key, text))) => raw_write(&format!("V {idx} {key} | {}\n", text.replace('\n', " "))),
+            Err(_) => raw_write(&format!("V {idx} stream:panic | panicked at {}\n", vcore::last_panic_location())),
+        }
+    }
+    std::process::exit(0)
+}
+
+fn run_stream_cases(r: &Report, cases: &[(Vec<usize>, usize)]) {
+    let input: String = cases.iter().map(|(s, c)| format!("{c} {}\n", s.iter().map(|x| x.to_string()).collect::<Vec<_>>().join(" "))).collect();
+    let cr = vcore::sandbox::run_self(&["--stream-child"], input.as_bytes(), Duration::from_secs(900));
+    let text = String::from_utf8_lossy(&cr.stdout);
+    let mut done = vec![false; cases.len()];
+    let mut started: Option<usize> = None;
+    let case_json = |i: usize| json!({"leg": "stream", "sizes": cases[i].0, "chunk": cases[i].1});
+    for line in text.lines() {
+        let mut it = line.splitn(3, ' ');
+        match (it.next(), it.next().and_then(|x| x.parse::<usize>().ok())) {
+            (Some("I"), Some(i)) => started = Some(i),
+            (Some("K"), Some(i)) if i < cases.len() => {
+                done[i] = true;
+                r.eval(1);
+                r.nontrivial(1);
+                r.counters.add("cases_stream", 1);
+                r.counters.add("stream_sequences_decoded_exactly", 1);
+            }
+            (Some("V"), Some(i)) if i < cases.len() => {
+                done[i] = true;
+                r.eval(1);
+                r.counters.add("cases_stream", 1);
+                let rest = it.next().unwrap_or("");
+                let (key, what) = rest.split_once(" | ").unwrap_or((rest, ""));
+                r.violation(key, &format!("{what} [reader chunk {}]", if cases[i].1 == 0 { "unlimited".to_string() } else { cases[i].1.to_string() }), case_json(i));
+            }
+            _ => {}
+        }
+    }
+    if cr.timed_out {
+        vcore::machinery_error("stream sub-leg hit its wall-clock backstop");
+    }
+    if done.iter().any(|d| !d) {
+        // the child died: the case it had started is the culprit
+        let i = started.unwrap_or(0).min(cases.len() - 1);
+        r.eval(1);
+        r.violation("abort:stream", &format!("decoder process died reading the frame sequence {:?} (chunk {}): exit {:?} signal {:?} {}", cases[i].0, cases[i].1, cr.exit_code, cr.signal, cr.stderr_tail.replace('\n', " ")), case_json(i));
+    }
+}
+
+// ---------------------------------------------------------------------------------------------
 // main
 // ---------------------------------------------------------------------------------------------
 
@@ -911,10 +1058,19 @@ fn main() {
     if argv.iter().any(|a| a == "--child") {
         child_main(argv.iter().any(|a| a == "--verbose"));
     }
+    if argv.iter().any(|a| a == "--stream-child") {
+        stream_child();
+    }
     vcore::quiet_panics();
     let r = Report::new("C08", "enum", "exploration", "E-ENUM");
     let oracle = Oracle { r: &r, runner: Runner { spawned: AtomicU64::new(0), crashes: AtomicU64::new(0), wall_backstop_hits: AtomicU64::new(0) }, outcome_classes: Mutex::new(BTreeSet::new()), max_legit_single: AtomicU64::new(0), max_legit_peak: AtomicU64::new(0), max_legit_ratio_x1000: AtomicU64::new(0), unreproduced: AtomicU64::new(0), pinned: Mutex::new(BTreeSet::new()) };
     if let Some(case) = r.replay_case() {
+        if case["leg"] == "stream" {
+            let sizes: Vec<usize> = case["sizes"].as_array().map(|a| a.iter().filter_map(|x| x.as_u64()).map(|x| x as usize).collect()).unwrap_or_default();
+            run_stream_cases(&r, &[(sizes, case["chunk"].as_u64().unwrap_or(0) as usize)]);
+            drop(oracle);
+            r.finish_replay();
+        }
         let c = Case::from_json(&case);
         let outs = oracle.runner.run(&[&c], true);
         let o = outs.into_iter().next().unwrap_or_default();
@@ -956,6 +1112,7 @@ fn main() {
         Nest,
         BadClass,
         Random(u64),
+        Stream,
     }
     let mut units: Vec<Unit> = Vec::new();
     for i in 0..corpus.len() {
@@ -978,6 +1135,7 @@ fn main() {
             }
         }
     }
+    units.push(Unit::Stream);
     units.push(Unit::Nest);
     units.push(Unit::BadClass);
     let n_random = if thorough { 5_000_000 } else { 100_000 };
@@ -995,6 +1153,7 @@ fn main() {
             Unit::Nest => only == "nest",
             Unit::BadClass => only == "badclass",
             Unit::Random(_) => only == "random",
+            Unit::Stream => only == "stream",
         });
     }
     let oref = &oracle;
@@ -1013,6 +1172,7 @@ fn main() {
             Unit::Nest => "nest",
             Unit::BadClass => "badclass",
             Unit::Random(_) => "random",
+            Unit::Stream => "stream",
         };
         match u {
             Unit::Well(i) => {
@@ -1077,6 +1237,7 @@ fn main() {
             Unit::Nest => nest_cases(thorough, &mut cases),
             Unit::BadClass => badclass_cases(&mut cases),
             Unit::Random(k) => random_cases(seed.wrapping_mul(1000).wrapping_add(k), 10_000, &mut cases),
+            Unit::Stream => run_stream_cases(oref.r, &stream_cases(thorough)),
         }
         // nests are megabytes each: small batches
         let b = if matches!(u, Unit::Nest) { 8 } else { batch };
@@ -1105,7 +1266,7 @@ fn main() {
     if unrep > 0 && r.args.extra_value("--only").is_none() {
         vcore::machinery_error(&format!("{unrep} fatal outcomes did not reproduce when the case was re-run alone"));
     }
-    r.set_rule("E-ENUM with deviation bounding. 0 deviations: corpus of well-formed frames of every response kind (ERROR all 19 codes with extras, READY, AUTHENTICATE, SUPPORTED, RESULT void/rows/set_keyspace/prepared/schema_change, EVENT all kinds, AUTH_CHALLENGE/SUCCESS; rows over a depth-2 type alphabet incl. class-string forms and vectors, every metadata flag combination, 0..2 rows, cached-metadata twin for no_metadata) x extension subsets x {none, LZ4, Snappy} x {matches, literal-only} x feature combinations (quick: 4; thorough: all 16), decoded through read_response_frame -> parse_response_body_extensions -> ResponseV2::deserialize (+ legacy Response for events) -> deserialize_metadata -> rows as raw cells, as Row/CqlValue and as every typed tuple of the target alphabet that passes type_check; decoded text must equal the text derived from the cqlref model. 1 deviation: every stream truncation, every body truncation with consistent header, every length/count/flag/id field x {0,1,-1,-2,+1,-1,0x7fff,0xffff,i32::MAX,i32::MIN, bit flips, all type ids / result kinds / opcodes / error codes}, header fields, every offset of the rows content x boundary 4-byte / 8-byte / 1-byte values (counts and lengths inside cell values, extreme scalars; typed targets on), damaged compressed streams (every cut, every byte x 4 values, announced length), bad class strings, type nesting 1e2..1e6 (binary) and 4..7000 (class strings). 2 deviations: field pairs (quick: same region or adjacent, reduced value alphabet; thorough: same region at any distance or any two fields <= 12 apart, full alphabet) and field mutation + body truncation right after the field / right before the end; thorough also repeats the single deviations under 6 feature sets with typed targets. Two-column rows over ordered pairs of the type alphabet (quick: a third; thorough: all). Sampled (labelled): random bodies behind valid headers. Oracle per case in a child process: no panic/abort/signal/stack overflow (2 MiB thread)/more than 4 s of CPU time for one decode; largest single request and peak live bytes above the pre-decode level <= 64 KiB + 256 x frame length (x decompressed body length once a compressed body has been inflated) by a counting allocator that reports before the request is served and refuses > 64 MiB. distinct_nontrivial = round trips that matched + deviations rejected with a clean error.");
+    r.set_rule("E-ENUM with deviation bounding. 0 deviations: corpus of well-formed frames of every response kind (ERROR all 19 codes with extras, READY, AUTHENTICATE, SUPPORTED, RESULT void/rows/set_keyspace/prepared/schema_change, EVENT all kinds, AUTH_CHALLENGE/SUCCESS; rows over a depth-2 type alphabet incl. class-string forms and vectors, every metadata flag combination, 0..2 rows, cached-metadata twin for no_metadata) x extension subsets x {none, LZ4, Snappy} x {matches, literal-only} x feature combinations (quick: 4; thorough: all 16), decoded through read_response_frame -> parse_response_body_extensions -> ResponseV2::deserialize (+ legacy Response for events) -> deserialize_metadata -> rows as raw cells, as Row/CqlValue and as every typed tuple of the target alphabet that passes type_check; decoded text must equal the text derived from the cqlref model. 1 deviation: every stream truncation, every body truncation with consistent header, every length/count/flag/id field x {0,1,-1,-2,+1,-1,0x7fff,0xffff,i32::MAX,i32::MIN, bit flips, all type ids / result kinds / opcodes / error codes}, header fields, every offset of the rows content x boundary 4-byte / 8-byte / 1-byte values (counts and lengths inside cell values, extreme scalars; typed targets on), damaged compressed streams (every cut, every byte x 4 values, announced length), bad class strings, type nesting 1e2..1e6 (binary) and 4..7000 (class strings). 2 deviations: field pairs (quick: same region or adjacent, reduced value alphabet; thorough: same region at any distance or any two fields <= 12 apart, full alphabet) and field mutation + body truncation right after the field / right before the end; thorough also repeats the single deviations under 6 feature sets with typed targets. Two-column rows over ordered pairs of the type alphabet (quick: a third; thorough: all). Stream level: sequences of 1-3 well-formed frames back to back in one reader, first-frame body sizes {0,1,9,8191,8192,32767,32768,32769,40000,49152,65535,65536,65537,100000,131073,300001}, reader handing out {everything, 1, 7, 4096, 65537} bytes per poll with Pending in between, decoded by repeated read_response_frame: every (params, opcode, body) equals what was encoded, in order, the reader is exhausted exactly at the end and one more read is an error. Sampled (labelled): random bodies behind valid headers. Oracle per case in a child process: no panic/abort/signal/stack overflow (2 MiB thread)/more than 4 s of CPU time for one decode; largest single request and peak live bytes above the pre-decode level <= 64 KiB + 256 x frame length (x decompressed body length once a compressed body has been inflated) by a counting allocator that reports before the request is served and refuses > 64 MiB. distinct_nontrivial = round trips that matched + deviations rejected with a clean error.");
     r.set_exhaustive(true);
     r.assume("row iteration is consumer-driven: the harness pulls at most 4096 rows per iterator and stops at the first error; every step is checked");
     r.assume("the decode runs on a 2 MiB thread (tokio worker default), RLIMIT_AS 2 GiB protects the checker only; verdicts come from the counting allocator");
